@@ -8,6 +8,7 @@
 From Coq Require Import String Ascii NArith List Bool Lia.
 From stdpp Require Import gmap strings.
 From Fsn Require Import KqModel.
+From Fsn Require PathLex PathLexProofs.
 Import ListNotations.
 Local Open Scope string_scope.
 Local Open Scope N_scope.
@@ -31,6 +32,49 @@ Record KqInv (s : st) : Prop := {
   inv_bucket : ∀ d S, t_bydir (T s) !! d = Some S → S ≠ ∅;
 }.
 
+(* ------------------------------------------------------------------ clean is idempotent *)
+
+(* The path functions of KqModel.v are those of PathLex.v written differently (split_slash without accumulator,
+   String.concat, norm with the arguments of clean_comps permuted, clean without the special case for ""): they are
+   equal as functions, so the properties proved in PathLexProofs.v carry over. *)
+Lemma split_slash_pathlex s : split_slash s = PathLex.split_slash s.
+Proof.
+  unfold PathLex.split_slash. induction s as [|c r IH]; [reflexivity|].
+  cbn [split_slash PathLex.split_slash_aux]. unfold PathLex.is_slash, PathLex.slash, slash.
+  destruct (Ascii.eqb c "/"); [rewrite IH; reflexivity|].
+  rewrite IH. change ("" ++ String c "") with (String c "").
+  rewrite (PathLexProofs.split_aux_cur r (String c "")).
+  destruct (PathLex.split_slash_aux r ""); reflexivity.
+Qed.
+
+Lemma join_slash_pathlex l : join_slash l = PathLex.join_slash l.
+Proof.
+  unfold join_slash. induction l as [|x [|y l] IH]; try reflexivity.
+  cbn [String.concat PathLex.join_slash] in *. rewrite IH. reflexivity.
+Qed.
+
+Lemma norm_pathlex abs : ∀ cs stk, norm abs stk cs = PathLex.clean_comps abs cs stk.
+Proof.
+  induction cs as [|c r IH]; intros stk; [reflexivity|].
+  cbn [norm PathLex.clean_comps]. destruct stk as [|t stk']; rewrite ?IH; reflexivity.
+Qed.
+
+Lemma clean_pathlex s : clean s = PathLex.clean s.
+Proof.
+  destruct s as [|c r]; [reflexivity|].
+  unfold clean, PathLex.clean.
+  change (PathLex.rooted (String c r)) with (is_abs (String c r)).
+  rewrite norm_pathlex, split_slash_pathlex, join_slash_pathlex.
+  destruct (is_abs (String c r)); [reflexivity|].
+  pose proof (PathLexProofs.clean_comps_split_nf false (String c r)) as Hnf.
+  destruct (PathLex.clean_comps false (PathLex.split_slash (String c r)) []) as [|x l] eqn:E; [reflexivity|].
+  destruct (PathLex.join_slash (x :: l)) eqn:Ej; [|reflexivity].
+  exfalso. revert Ej. apply PathLexProofs.join_nonempty; [eapply PathLexProofs.nf_comp_ok; exact Hnf|discriminate].
+Qed.
+
+Theorem clean_idem s : clean (clean s) = clean s.
+Proof. rewrite !clean_pathlex. apply PathLexProofs.clean_idem. Qed.
+
 (* ------------------------------------------------------------------ primitive transitions *)
 
 Section prims.
@@ -47,6 +91,8 @@ Inductive prim : st → st → Prop :=
 | p_watch s name link isdir fl k1 fd k2 :
     closed s = false →                                                     (* addWatch refuses once the watcher is closed *)
     tb_byPath (T s) name = None → sys_open (K s) name = inr (k1, fd) → sys_register k1 fd fl = Some k2 →
+    clean name = name →                                                    (* a watch is filed under a cleaned name only *)
+    (link = "" ∨ clean link = link) →                                      (* … and reports under no name or a cleaned link name *)
     prim s (set_T (fun t => tb_add t name link fd isdir) (set_K (fun _ => k2) s))
 | p_rereg s fd fl k1 : sys_register (K s) fd fl = Some k1 → prim s (set_K (fun _ => k1) s)
 | p_regfail s fd : k_led (K s) !! fd = None → prim s (set_K (fun k => sys_close k fd) s)
@@ -146,16 +192,16 @@ Proof.
     + apply steps_one, p_regfail. unfold sys_register in Er. destruct (k_led (K s) !! fd); [discriminate|reflexivity].
   - destruct (v_lstat (fs_of s) (clean name)) as [e|k]; simpl; [apply steps_refl|].
     destruct (is_fifo k); simpl; [apply steps_refl|].
-    assert (Hopen : ∀ s0 nm lk k0, closed s0 = false → tb_byPath (T s0) nm = None →
+    assert (Hopen : ∀ s0 nm lk k0, closed s0 = false → tb_byPath (T s0) nm = None → clean nm = nm → (lk = "" ∨ clean lk = lk) →
               steps s0 (match sys_open (K s0) nm with
                         | inl e => (s0, RErr (EOs e))
                         | inr (k1, fd) => aw_finish (addWatch fuel) (set_K (λ _ : kernel, k1) s0) nm fd lk (is_dir k0) 0 false flags
                         end).1).
-    { intros s0 nm lk k0 Hc0 Hb. destruct (sys_open (K s0) nm) as [e|[k1 fd]] eqn:Eo; [apply steps_refl|].
+    { intros s0 nm lk k0 Hc0 Hb Hcl Hlk. destruct (sys_open (K s0) nm) as [e|[k1 fd]] eqn:Eo; [apply steps_refl|].
       unfold aw_finish.
       destruct (sys_open_register _ _ _ _ flags Eo) as [k2 Er].
       change (K (set_K (λ _ : kernel, k1) s0)) with k1. rewrite Er.
-      eapply steps_trans; [apply steps_one, (p_watch s0 nm lk (is_dir k0) flags k1 fd k2 Hc0 Hb Eo Er)|].
+      eapply steps_trans; [apply steps_one, (p_watch s0 nm lk (is_dir k0) flags k1 fd k2 Hc0 Hb Eo Er Hcl Hlk)|].
       apply (aw_tail_steps (addWatch fuel) IH _ nm lk (is_dir k0) 0 false flags).
       unfold tb_byPath, tb_add. simpl. rewrite !lookup_insert. simpl. rewrite ?lookup_insert. eauto. }
     destruct (negb ld && is_link k); simpl.
@@ -163,8 +209,8 @@ Proof.
       set (l' := clean (if is_abs l then l else pjoin (dir (clean name)) l)).
       destruct (tb_byPath (T s) l') as [?|] eqn:El; simpl.
       * apply steps_one, p_link, Eb.
-      * destruct (v_lstat (fs_of s) l') as [e|k']; simpl; [apply steps_refl|]. apply Hopen; [exact Ecl|exact El].
-    + apply Hopen; [exact Ecl|exact Eb].
+      * destruct (v_lstat (fs_of s) l') as [e|k']; simpl; [apply steps_refl|]. apply Hopen; [exact Ecl|exact El|apply clean_idem|right; apply clean_idem].
+    + apply Hopen; [exact Ecl|exact Eb|apply clean_idem|left; reflexivity].
 Qed.
 
 Definition user_name (c : cfg) (p : string) : string := if fx_user_clean c then clean p else p.
@@ -725,6 +771,43 @@ Proof. apply (inv_led _ (kq_inv_run c h)). Qed.
 
 Definition names_clean (s : st) : Prop := ∀ fd w, t_wd (T s) !! fd = Some w → clean (w_name w) = w_name w.
 
+(* every primitive keeps the watch names clean: the only one that files a new watch (p_watch) does so under a cleaned name *)
+Lemma prim_names_clean U s s' : names_clean s → prim U s s' → names_clean s'.
+Proof.
+  intros Hnc H. destruct H; unfold names_clean in *; simpl; auto.
+  - match goal with HT : T _ = T _ |- _ => rewrite HT end. exact Hnc.
+  - match goal with Hb : is_Some (tb_byPath ?t ?q), Hu : tb_updateDirFlags _ _ _ = Some _ |- _ =>
+      destruct Hb as [[f0 w0] Hb]; unfold tb_byPath in Hb; unfold tb_updateDirFlags in Hu;
+      destruct (t_path t !! q) as [f1|]; [|discriminate]; simpl in Hb;
+      destruct (t_wd t !! f1) as [w1|] eqn:Ew; [|discriminate]; injection Hu as <- end. simpl.
+    intros fd w. destruct (decide (f1 = fd)) as [->|Hd].
+    + rewrite lookup_insert. intros [= <-]. simpl. exact (Hnc _ _ Ew).
+    + rewrite lookup_insert_ne by done. apply Hnc.
+  - intros fd0 w. destruct (decide (fd = fd0)) as [->|Hd].
+    + rewrite lookup_insert. intros [= <-]. simpl. assumption.
+    + rewrite lookup_insert_ne by done. apply Hnc.
+  - intros fd0 w0. destruct (decide (fd = fd0)) as [->|Hd]; [rewrite lookup_delete; discriminate|].
+    rewrite lookup_delete_ne by done. apply Hnc.
+Qed.
+
+Lemma steps_names_clean U s s' : steps U s s' → names_clean s → names_clean s'.
+Proof. apply steps_ind_inv. intros; eapply prim_names_clean; eauto. Qed.
+
+Lemma names_clean_init : names_clean st_init.
+Proof. intros fd w Hw. simpl in Hw. rewrite lookup_empty in Hw. discriminate. Qed.
+
+(* names_clean is an invariant: every history step preserves it, whatever the filesystem contains, for every
+   configuration (no repair flag is needed: addWatch cleans its argument and the link target itself, and the names of
+   directory entries reach the tables through addWatch only) *)
+Theorem names_clean_step c s x : names_clean s → names_clean (do_step c s x).1.
+Proof. intros Hnc. eapply (steps_names_clean (λ _, True)); [apply do_step_steps; auto|exact Hnc]. Qed.
+
+Theorem names_clean_run c h : names_clean (run c h st_init).
+Proof. eapply (steps_names_clean (λ _, True)); [apply run_steps; auto|apply names_clean_init]. Qed.
+
+Theorem names_clean_handle c s r : names_clean s → names_clean (handle c s r).
+Proof. apply (steps_names_clean (λ _, True)), handle_steps. Qed.
+
 (* the name under which a descriptor is filed never changes while it lives *)
 Definition fd_named (fd : N) (nm : string) (s : st) : Prop :=
   fd < k_next (K s) ∧ ∀ w, t_wd (T s) !! fd = Some w → w_name w = nm.
@@ -902,6 +985,36 @@ Proof.
     eapply steps_trans; [|apply run_steps; auto]. cbn [do_step fst]. apply settle_steps; auto. }
   destruct (steps_released _ _ _ Hsteps Hrel) as (A & B & D). repeat split; auto.
 Qed.
+
+(* … in particular in the state in which the Close of a SClose step runs *)
+Theorem names_clean_before_close c h : names_clean (before_close c (run c h st_init)).
+Proof.
+  eapply (steps_names_clean (λ _, True)); [|apply (names_clean_run c h)].
+  eapply steps_trans; [apply steps_one, (p_out _ _ (set_held false (run c h st_init))); try reflexivity; auto|apply settle_steps; auto].
+Qed.
+
+(* close_empties in the state a history leads to: no premise on the watch names *)
+Theorem close_empties_reached c h :
+  fx_close c = true →
+  let s := before_close c (run c h st_init) in
+  closed s = false → gone s = false →
+  let s' := api_close c s in
+  closed s' = true ∧ t_wd (T s') = ∅ ∧ k_led (K s') = ∅ ∧ k_regs (K s') = ∅ ∧ t_bydir (T s') = ∅ ∧ k_pw (K s') = false.
+Proof.
+  intros Hf s C G. apply close_empties; auto; [|apply names_clean_before_close].
+  eapply (steps_inv (λ _, True)); [|apply (kq_inv_run c h)].
+  eapply steps_trans; [apply steps_one, (p_out _ _ (set_held false (run c h st_init))); try reflexivity; auto|apply settle_steps; auto].
+Qed.
+
+(* C17 close_releases_all without the premise on the watch names: every configuration with the repaired Close, every
+   history before and after the Close.  The two remaining premises say that Close has not been called before. *)
+Theorem close_releases_all_unconditional c h1 h2 :
+  fx_close c = true →
+  let s0 := before_close c (run c h1 st_init) in
+  closed s0 = false → gone s0 = false →
+  let s := run c (h1 ++ SClose :: h2) st_init in
+  k_led (K s) = ∅ ∧ k_regs (K s) = ∅ ∧ closed s = true.
+Proof. intros Hf s0 C G. exact (close_releases_all c h1 h2 Hf C G (names_clean_before_close c h1)). Qed.
 
 (* ------------------------------------------------------------------ C17: Remove unlists (repaired addUserWatch, c3f1f06) *)
 
